@@ -138,6 +138,19 @@ func (ch *channel) addInitDataAndUpdateTimescale(stream stream, init *mp4.InitSe
 		return fmt.Errorf("expected one track, got %d", len(moov.Traks))
 	}
 	trak := moov.Traks[0]
+	// Validate before anything of the channel is touched: a refused init segment must leave no trace, and the boxes
+	// checked here are dereferenced by the upload handler and by the channel goroutine later on.
+	switch {
+	case moov.Mvhd == nil || moov.Mvex == nil || moov.Mvex.Trex == nil:
+		return fmt.Errorf("no mvhd, mvex or trex box in init segment")
+	case trak.Tkhd == nil || trak.Mdia == nil || trak.Mdia.Mdhd == nil || trak.Mdia.Hdlr == nil || trak.Mdia.Minf == nil ||
+		trak.Mdia.Minf.Stbl == nil || trak.Mdia.Minf.Stbl.Stsd == nil:
+		return fmt.Errorf("no tkhd, mdia, mdhd, hdlr, minf, stbl, or stsd box in track")
+	case len(trak.Mdia.Minf.Stbl.Stsd.Children) == 0:
+		return fmt.Errorf("no sample entry in stsd box")
+	case trak.Mdia.Mdhd.Timescale == 0 || moov.Mvhd.Timescale == 0:
+		return fmt.Errorf("timescale 0 in init segment")
+	}
 
 	// The channel state (start time, track table, MPD) is shared by the handlers of all tracks
 	// and by the channel goroutine, so it is only changed under the channel lock.
